@@ -48,6 +48,21 @@ pub struct SolverCache<D: DependencyProvider> {
     hint_dependencies_available: RefCell<BitVec>,
 }
 
+/// Removes the in-flight marker of a candidates request and wakes up everybody
+/// waiting for it, both when the request completes and when it is abandoned.
+struct InFlightGuard<'a> {
+    in_flight: &'a RefCell<HashMap<NameId, Rc<Event>>>,
+    package_name: NameId,
+}
+
+impl Drop for InFlightGuard<'_> {
+    fn drop(&mut self) {
+        if let Some(notifier) = self.in_flight.borrow_mut().remove(&self.package_name) {
+            notifier.notify(usize::MAX);
+        }
+    }
+}
+
 impl<D: DependencyProvider> SolverCache<D> {
     /// Constructs a new instance from a provider.
     pub fn new(provider: D) -> Self {
@@ -113,6 +128,15 @@ impl<D: DependencyProvider> SolverCache<D> {
                             .borrow_mut()
                             .insert(package_name, Rc::new(Event::new()));
 
+                        // Make sure the in-flight marker does not outlive this request: if
+                        // this future is dropped before the provider answers (e.g. because
+                        // solving was cancelled) a later request for the same package would
+                        // otherwise wait forever for a notification that never comes.
+                        let in_flight_guard = InFlightGuard {
+                            in_flight: &self.package_name_to_candidates_in_flight,
+                            package_name,
+                        };
+
                         // Otherwise we have to get them from the DependencyProvider
                         let candidates = self
                             .provider
@@ -147,12 +171,7 @@ impl<D: DependencyProvider> SolverCache<D> {
 
                         // Remove the in-flight request now that we inserted the result and notify
                         // any waiters
-                        let notifier = self
-                            .package_name_to_candidates_in_flight
-                            .borrow_mut()
-                            .remove(&package_name)
-                            .expect("notifier should be there");
-                        notifier.notify(usize::MAX);
+                        drop(in_flight_guard);
 
                         candidates_id
                     }
